@@ -72,7 +72,16 @@ pub async fn transfer_tcp<NewContext, Context, NewCodec, Codec>(
     let config = Arc::new(config);
     match context {
         Ok(context) => {
-            while let Ok((mut inbound, local_addr)) = listener.accept().await {
+            loop {
+                // a failed accept (e.g. out of descriptors for a moment) concerns that connection only
+                let (mut inbound, local_addr) = match listener.accept().await {
+                    Ok(accepted) => accepted,
+                    Err(e) => {
+                        error!("[tcp] accept failed; error={}", e);
+                        time::sleep(Duration::from_millis(50)).await;
+                        continue;
+                    }
+                };
                 let context = context.clone();
                 let config = config.clone();
                 tokio::spawn(async move {
